@@ -15,6 +15,7 @@ import SeataModel.Driver.C05
 import SeataModel.Driver.AT
 import SeataModel.Driver.C03
 import SeataModel.Driver.C16
+import SeataModel.Driver.C11
 import SeataModel.Driver.C02
 
 open Seata.Driver
@@ -35,6 +36,7 @@ def dispatch (prop : String) (ws : List String) : String :=
   | "C01" | "C09" | "C10" | "C18" => Seata.Driver.AT.handle ws
   | "C03" => Seata.Driver.C03.handle ws
   | "C16" => Seata.Driver.C16.handle ws
+  | "C11" => Seata.Driver.C11.handle ws
   | _ => "bad-prop"
 
 partial def loop (hin : IO.FS.Stream) (hout : IO.FS.Stream) : IO Unit := do
